@@ -12,7 +12,7 @@ Definition u_ser_dec_log (v : V) : V :=
   let '(r, s) := c_dec_value flocq_fc (pk_of (vnth v 1)) reg (Z.to_nat (as_int (vnth v 2)))
                              (cst0 (as_bytes (vnth v 3))) in
   VL [vsres (fun x => VL [val2v x; VI (len (c_rem s))]) r; VI (c_nval s);
-      VL (map (fun p => VL [VI (fst p); VI (snd p)]) (rev (c_log s)))].
+      VL (map (fun p => VL [VI (fst p); VI (snd p)]) (rev_append (c_log s) []))].
 
 Definition v2tok (v : V) (t : Z) : option nat :=
   (fix go (l : list V) : option nat :=
